@@ -4,6 +4,8 @@ PROP = dict(
     level="exploration",
     stages=[
         dict(name="c09_data", src="harness/c09_data.cc", deps=["harness/c09/ref.hh"], shards_quick=8, shards_thorough=16,
+             # the sparse dumps of up to 2^33 bytes legitimately take close to a minute of CPU each: raise the per-case CPU watchdog
+             env={"VERIF_CASE_CPU_LIMIT": "900"},
              timeout_quick=400, timeout_thorough=1500),
         # deps must be a tuple here: run/stages.py concatenates it with a tuple
         dict(name="c09_fuzz", kind="fuzz", src="fuzz/c09_parse.cc", deps=("harness/c09/ref.hh",), corpus="corpus/c09/fuzz", dict="fuzz/c09_parse.dict",
